@@ -15,6 +15,7 @@ static void* qalloc(uint64_t size){
   uint32_t i = q_used++;
   return i == 0 ? q_pool0 : i == 1 ? q_pool1 : i == 2 ? q_pool2 : q_pool3;
 }
+void vll_qpool_set(uint32_t used){ vassert_at(q_used == used, 9101); q_used = used; }
 static void qfree(void* p){ vra_forget(p, VLL_QBLOCK); for (uint32_t i = 0; i < VLL_QBLOCK; i++) ((unsigned char*)p)[i] = 0xDD; }
 #define VLL_QFREE_POOL 1
 #else
